@@ -105,7 +105,8 @@ ChmodChtimes(fs, p, m, t) ==
 \* os.Symlink: EEXIST on anything, never follows the last component
 Symlink(fs, tg, p) ==
   LET r == ResAbs(fs, p, FALSE) IN
-  IF r.st = "noent" THEN [ok |-> TRUE, fs |-> AddNode(fs, r.p, LinkNode(tg))]
+  IF tg = <<>> \/ tg = <<"">> THEN [ok |-> FALSE, fs |-> fs]           \* symlink(2): empty target is ENOENT
+  ELSE IF r.st = "noent" THEN [ok |-> TRUE, fs |-> AddNode(fs, r.p, LinkNode(tg))]
   ELSE [ok |-> FALSE, fs |-> fs]
 
 \* os.Lstat: the node itself
